@@ -119,3 +119,18 @@ Print Assumptions Goldilocks.C11_lexLargest.
 Print Assumptions C11_decimal_roundtrip.
 Print Assumptions C11_glue_is_the_source_ff.
 Print Assumptions C11_glue_is_the_source_ffg.
+
+Print Assumptions BN254.C11_setBytes.
+Print Assumptions Goldilocks.C11_setBytes.
+Print Assumptions BN254.C11_setString.
+Print Assumptions Goldilocks.C11_setString.
+Print Assumptions BN254.C11_toBigInt.
+Print Assumptions Goldilocks.C11_toBigInt.
+Print Assumptions BN254.C11_bytes.
+Print Assumptions Goldilocks.C11_bytes.
+Print Assumptions Goldilocks.C11_string.
+Print Assumptions BN254.C11_equal.
+Print Assumptions Goldilocks.C11_equal.
+Print Assumptions BN254.C11_cmp.
+Print Assumptions Goldilocks.C11_cmp.
+Print Assumptions BN254.C11_array_roundtrip.
